@@ -50,7 +50,7 @@ def strategy_case(draw):
     case = {"routine": routine, "dt": dt, "lib_seed": draw(gen.SEED), "seed": draw(gen.SEED),
             "eps": 10 ** draw(st.floats(-12, -1)),
             "spectrum": draw(st.sampled_from(["randn", "decay", "decay"])),
-            "scale_exp": draw(st.sampled_from([0, 0, 0, -6, -3, 3, 6]))}
+            "scale_exp": draw(st.sampled_from([0, 0, 0, -6, -3, 3, 6, -20, 20]))}
     if case["spectrum"] == "decay":
         case["rho"] = draw(st.sampled_from([0.5, 0.1, 0.01]))
         case["r"] = draw(st.integers(2, 4))
